@@ -145,7 +145,15 @@ fn cmpir(run: &mut Run, i: i64, bits: u64) {
     run.case(format!("cmpir (int {}) (real {})", i, bits), format!("cmpir algo {} spec {} rev {}", ord(fwd), ord(fwd), ord(rev)),
         format!("cmpir:{}:{}", class, ord(fwd)));
     run.oracle_checks += 1;
-    let want = if f.is_nan() { Ordering::Less } else { exact_int_float(i, f) };
+    if f.is_nan() {
+        // the sentence asks for ONE total order in which NaN does not break the laws, not for where NaN stands: either end is
+        // fine as long as the two operand orders agree (antisymmetry) and the answer is not `Equal` (NaN is no INT)
+        if fwd == Ordering::Equal || rev != fwd.reverse() {
+            run.fail(desc, "int-real-where-order", format!("compare_values(Int, NaN)={:?}, (NaN, Int)={:?}: not antisymmetric, or an INT equal to NaN", fwd, rev));
+        }
+        return;
+    }
+    let want = exact_int_float(i, f);
     if fwd != want || rev != want.reverse() {
         run.fail(desc, "int-real-where-order", format!("compare_values(Int, Float)={:?}, (Float, Int)={:?}; numeric order is {:?}", fwd, rev, want));
     }
@@ -217,8 +225,8 @@ fn boundary_set() -> Vec<Value> {
 }
 
 /// "any two values … joined are equal": the join lookup on INT keys that are neighbours where a REAL cannot tell them apart
-/// (2^53 ± k, i64 extremes ± k) and on REAL keys (±0.0, whole numbers): every pair the real program joins has equal keys, and
-/// every pair of lines with equal INT keys is joined (the count of pairs)
+/// (2^53 ± k, i64 extremes ± k) and on REAL keys (±0.0, whole numbers in several spellings, NaN, infinities): every pair the real
+/// program joins has equal keys, and every pair of lines with equal keys is joined (the count of pairs)
 fn join_lookup_cases(run: &mut Run, rng: &mut Rng, n: usize) {
     use crate::engine_run::{prepare, run_files};
     let defs = crate::c05::defs();
@@ -253,6 +261,30 @@ fn join_lookup_cases(run: &mut Run, rng: &mut Rng, n: usize) {
             run.fail(desc, "joined-values-not-equal", format!("the record `{}` joins two different keys", rec));
         } else if pairs != want {
             run.fail(desc, "join-lookup-pair-count", format!("{} pairs are joined, {} pairs of lines have equal keys", pairs, want));
+        }
+    }
+    // REAL keys: 0.0 and -0.0 are equal values (joined), whole numbers in several spellings, NaN equal to itself in the one order;
+    // the oracle compares the keys by the REAL total order of the property (`-0.0 = 0.0`, every NaN = every NaN)
+    const REALS: &[&str] = &["0.0", "-0.0", "1.0", "1", "1e0", "2.5", "-2.5", "NaN", "nan", "inf", "-inf", "100000000000000000000", "1e20"];
+    for _ in 0..n / 2 {
+        let main: Vec<&str> = (0..1 + rng.below(4)).map(|_| *rng.pick(REALS)).collect();
+        let joined: Vec<&str> = (0..1 + rng.below(4)).map(|_| *rng.pick(REALS)).collect();
+        let main_text: String = main.iter().map(|v| format!("a;1;;{};x;\n", v)).collect();
+        let joined_text: String = joined.iter().map(|v| format!("#b;1;y;{}\n", v)).collect();
+        std::fs::write(&jpath, joined_text.as_bytes()).unwrap();
+        let query = format!("SELECT t.r AS a, u.r AS b FROM t INNER JOIN u::'{}' ON t.r = u.r", jp);
+        let prepared = match prepare(&defs, &query) { Ok(p) => p, Err(_) => { run.count("join-lookup:rejected"); continue; } };
+        let out = run_files(&prepared, &[main_text.clone().into_bytes()]);
+        run.oracle_checks += 1;
+        let desc = format!("query={} main keys={:?} joined keys={:?}", query.replace(&jp, "J"), main, joined);
+        if out.status != "ok" { run.fail(desc, "join-lookup-error", format!("the join answers {}", out.status)); continue; }
+        let same = |a: &str, b: &str| -> bool {
+            match (a.parse::<f64>(), b.parse::<f64>()) { (Ok(x), Ok(y)) => (x.is_nan() && y.is_nan()) || x == y, _ => false }
+        };
+        let want: usize = main.iter().map(|a| joined.iter().filter(|b| same(a, b)).count()).sum();
+        run.count(if want > 0 { "join-lookup:real-pairs" } else { "join-lookup:real-no-pairs" });
+        if out.records().len() != want {
+            run.fail(desc, "join-lookup-pair-count", format!("{} pairs are joined ({:?}), {} pairs of lines have equal REAL keys", out.records().len(), out.records(), want));
         }
     }
     let _ = std::fs::remove_file(&jpath);
